@@ -55,7 +55,7 @@ static vf_spinbar_t bar;
 static volatile int stop_all;
 
 /* per round plan (written by main before the start barrier) */
-static int init_actions[MAXW], init_tasks_pool, ready_who /* -1 main first, -2 main last, else worker */, ready_step, tight, private_tid, add_budget;
+static int init_actions[MAXW], init_tasks_pool, ready_who /* -1 main first, -2 main last, else worker */, ready_step, tight, private_tid, add_budget, solo;
 
 static oprec_t logs[MAXW + 1][MAXOPS]; static int nlog[MAXW + 1];
 static __thread oprec_t *cur_op;
@@ -135,6 +135,18 @@ static void worker_round(int tid, vf_rng_t *rng)
     int held_a = init_actions[tid], held_t = 0, budget = add_budget, step = 0, ready_done = 0;
     long idle = 0;
     int i_ready = (ready_who == tid);
+    if (private_tid == tid && solo) {
+        /* this thread holds every token of the round and nb_tasks stays 0: it is the only thread that can touch the counters,
+         * so it may drop all its pending actions at once with set_runtime_actions(0) */
+        int extra = (int)vf_randn(rng, 3);
+        if (extra) { add_actions(extra); held_a += extra; }
+        if (i_ready && vf_chance(rng, 600)) { do_ready(); ready_done = 1; }
+        __atomic_fetch_sub(&unannounced, held_a, __ATOMIC_SEQ_CST);
+        oprec_t *o = op_begin(OP_SET_ACTIONS, 0); int rc = M->taskpool_set_runtime_actions(tp, 0); op_end(o, rc);
+        held_a = 0;
+        if (i_ready && !ready_done) do_ready();
+        return;
+    }
     if (private_tid == tid) {
         /* this thread is the only user of nb_tasks in this round: it may use set_nb_tasks (it holds an action token) */
         int k = 1 + (int)vf_randn(rng, 4);
@@ -291,6 +303,8 @@ int main(int argc, char **argv)
         int ntok = 0;
         for (int t = 0; t < W; t++) { init_actions[t] = tight ? 1 : (vf_chance(&mr, 700) ? 1 : 0) + (vf_chance(&mr, 100) ? 1 : 0); ntok += init_actions[t]; }
         if (private_tid >= 0 && init_actions[private_tid] == 0) { init_actions[private_tid] = 1; ntok++; }
+        solo = (private_tid >= 0 && vf_chance(&mr, 300));
+        if (solo) { ntok = 0; for (int t = 0; t < W; t++) { if (t != private_tid) init_actions[t] = 0; ntok += init_actions[t]; } }
         if (ntok == 0) { init_actions[0] = 1; ntok = 1; }
         init_tasks_pool = (tight || private_tid >= 0) ? 0 : (vf_chance(&mr, 400) ? 1 + (int)vf_randn(&mr, 6) : 0);
         /* ---- single-threaded set-up through the module ---- */
